@@ -611,3 +611,157 @@ func zzSrv12PolicyCert() {
 		zzsymCover("rejected_required_missing")
 	}
 }
+
+// RFC 4279 section 2: "if the PSK is N octets long, concatenate a uint16 with the value N, N zero octets, a
+// second uint16 with the value N, and the PSK itself".
+func zzSrvRefPSKPreMaster(psk []byte) []byte {
+	n := len(psk)
+	out := []byte{byte(n >> 8), byte(n)}
+	out = append(out, make([]byte, n)...)
+	out = append(out, byte(n>>8), byte(n))
+
+	return append(out, psk...)
+}
+
+// RFC 5489 section 2: uint16 length of Z, Z (the ECDH shared secret), uint16 length of the PSK, the PSK.
+func zzSrvRefECDHEPSKPreMaster(z, psk []byte) []byte {
+	out := []byte{byte(len(z) >> 8), byte(len(z))}
+	out = append(out, z...)
+	out = append(out, byte(len(psk)>>8), byte(len(psk)))
+
+	return append(out, psk...)
+}
+
+// DTLS 1.2 server, PSK and ECDHE_PSK cipher suites: the real flight4Parse on ClientKeyExchange (arbitrary
+// 1-byte identity, arbitrary 2-byte ECDH share) [+ optionally Certificate and CertificateVerify] + Finished in
+// the four (thorough: five) delivery variants of zzSrv12PolicyCert, every cfg.ClientAuth, callbacks configured
+// or not, a PSK callback that fails or returns an arbitrary 2-byte key. Proved: Flight6 is returned only if the
+// PSK callback was asked for exactly the identity on the wire and succeeded, the pre-master secret handed to
+// the master-secret derivation is the RFC 4279 (plain PSK: N, N zero bytes, N, PSK) or RFC 5489 (ECDHE_PSK:
+// len Z, Z = ECDH(client share from the wire, server private key), len PSK, PSK) layout of THAT key, the keys
+// installed by CipherSuite.Init come from that derivation, and the client's Finished was read at epoch 1,
+// i.e. under those keys - a Finished sent in the clear is not accepted. The certificate rules of
+// zzSrv12PolicyCert hold here too when a client sends a certificate on a PSK suite.
+//
+//symgo:entry covers=accepted_psk,accepted_ecdhe_psk,rejected_unknown_identity,cleartext_finished_ignored,waiting_for_finished,accepted_with_cert,rejected_required_missing
+func zzSrv12PolicyPSK() {
+	zzSrvReset()
+	suiteKind := zzSrvSuitePSK + zzsymChoice("ecdhe", 2)
+	withCert := zzsymChoice("with_cert", 2) == 1
+	certShape := zzSrvCertNone
+	if withCert {
+		certShape = zzSrvCertOne
+	}
+	finished := zzsymChoice("finished", zzsymParam("SRVFIN"))
+	callbacks := zzsymChoice("callbacks", 2) == 1
+	ems := zzsymChoice("ems", zzsymParam("SRVEMS")) == 1
+	sc := zzSrvBuild(suiteKind, certShape, withCert, 4, 3, finished, callbacks, ems)
+
+	accepted := zzSrvRun(sc)
+	zzSrvCheckInit(sc)
+	if zzSrv.initCalls > 0 {
+		zzsymAssert(zzsymAnd(zzSrv.pskCalls >= 1, zzSrv.pskOK), "srv12_no_keys_without_psk")
+	}
+	pol := dtlsconfig.ClientAuthType(sc.clientAuth)
+	if !accepted {
+		switch {
+		case zzSrv.pskCalls > 0 && !zzSrv.pskOK:
+			zzsymCover("rejected_unknown_identity")
+		case finished == zzSrvFinNone:
+			zzsymCover("waiting_for_finished")
+		case finished == zzSrvFinEpoch0:
+			zzsymCover("cleartext_finished_ignored")
+		case !withCert && (pol == dtlsconfig.RequireAnyClientCert || pol == dtlsconfig.RequireAndVerifyClientCert):
+			zzsymCover("rejected_required_missing")
+		}
+
+		return
+	}
+	zzSrvCheckAccepted(sc)
+	zzsymAssert(zzsymAnd(zzSrv.pskCalls >= 1, zzSrv.pskOK), "srv12_psk_known")
+	zzsymAssert(zzsymEqBytes(zzSrv.pskHint, sc.ckeIdent), "srv12_psk_looked_up_for_wire_identity")
+	zzsymAssert(zzsymEqBytes(sc.state.IdentityHint, sc.ckeIdent), "srv12_reported_identity_is_wire_identity")
+	var want []byte
+	if suiteKind == zzSrvSuitePSK {
+		want = zzSrvRefPSKPreMaster(zzSrv.psk)
+	} else {
+		z := zzsymUF("ECDH", 4, sc.ckePub, sc.state.LocalKeypair.PrivateKey, zzSrvCurveBytes(elliptic.X25519))
+		want = zzSrvRefECDHEPSKPreMaster(z, zzSrv.psk)
+	}
+	zzsymAssert(zzSrv.msCalls == 1, "srv12_master_secret_derived_once")
+	zzsymAssert(zzsymEqBytes(zzSrv.preMaster, want), "srv12_premaster_built_from_callback_psk")
+	zzsymAssert(zzsymEqBytes(zzSrv.initMaster, zzSrvMasterMarker), "srv12_keys_from_that_master_secret")
+	if withCert {
+		zzsymCover("accepted_with_cert")
+	}
+	if suiteKind == zzSrvSuitePSK {
+		zzsymCover("accepted_psk")
+	} else {
+		zzsymCover("accepted_ecdhe_psk")
+	}
+}
+
+// DTLS 1.2 server, certificate suite, fixed flight Certificate(1 certificate) + ClientKeyExchange +
+// CertificateVerify + Finished(epoch 1), RequireAndVerifyClientCert, all verifications succeeding: the two
+// SignatureAndHashAlgorithm bytes of the CertificateVerify are ARBITRARY. Proved: whenever Flight6 is
+// returned, VerifyCertificateVerify was called with the (hash, signature) pair that the two wire bytes denote
+// (RFC 5246 7.4.1.4.1: hash byte, signature byte; RFC 8446 4.2.3 for the rsa_pss code points 0x0804..0x0806,
+// 0x0809..0x080b), i.e. the signature is checked under the scheme the client named, and that pair is one of
+// the server's configured schemes.
+//
+//symgo:entry covers=accepted,rejected
+func zzSrv12CVSchemeBytes() {
+	zzSrvReset()
+	h, s := zzsymU8("cv_hash"), zzsymU8("cv_sig")
+	sc := zzSrvBuild(zzSrvSuiteCert, zzSrvCertOne, true, h, s, zzSrvFinEpoch1, false, false)
+	zzsymAssume(sc.clientAuth == int(dtlsconfig.RequireAndVerifyClientCert))
+	if !zzSrvRun(sc) {
+		zzsymCover("rejected")
+
+		return
+	}
+	zzsymAssert(zzsymAnd(zzSrv.cvCalls == 1, zzSrv.cvOK), "srv12_certificate_verify_ok")
+	wire := uint16(h)<<8 | uint16(s)
+	pss := zzsymOr(zzsymAnd(wire >= 0x0804, wire <= 0x0806), zzsymAnd(wire >= 0x0809, wire <= 0x080b))
+	wantSig := zzsymIteU16(pss, wire, uint16(s))
+	pssHash := zzsymIteU16(zzsymOr(wire == 0x0804, wire == 0x0809), 4, zzsymIteU16(zzsymOr(wire == 0x0805, wire == 0x080a), 5, 6))
+	wantHash := zzsymIteU16(pss, pssHash, uint16(h))
+	zzsymAssert(zzsymAnd(uint16(zzSrv.cvAlg) == wantSig, uint16(zzSrv.cvHash) == wantHash), "srv12_signature_checked_under_named_scheme")
+	listed := zzsymOr(zzsymAnd(wantHash == 4, wantSig == 3), zzsymAnd(wantHash == 8, wantSig == 7))
+	zzsymAssert(listed, "srv12_named_scheme_is_configured")
+	zzsymCover("accepted")
+}
+
+// DTLS 1.2 server with an anonymous (custom, unauthenticated) cipher suite: flight4Parse accepts after
+// ClientKeyExchange + Finished(epoch 1) and the optional VerifyConnection callback; no certificate policy
+// applies because the server flight of such a suite carries no CertificateRequest. Proved: Flight6 only after
+// a Finished read at epoch 1 and, when configured, VerifyConnection returning OK; a certificate a client sends
+// anyway is still subject to CertificateVerify / chain verification (zzSrvCheckAccepted). NOT asserted, only
+// witnessed (cover anon_accepts_despite_require_policy): with such a suite cfg.ClientAuth = Require* is not
+// enforced - flight4Parse returns before the policy switch. Anonymous suites exist only as user-supplied
+// CustomCipherSuites and are not a credential type of the property; reported as a remark.
+//
+//symgo:entry covers=accepted,rejected_callback,cleartext_finished_ignored,anon_accepts_despite_require_policy
+func zzSrv12PolicyAnon() {
+	zzSrvReset()
+	finished := zzsymChoice("finished", zzsymParam("SRVFIN"))
+	callbacks := zzsymChoice("callbacks", 2) == 1
+	sc := zzSrvBuild(zzSrvSuiteAnon, zzSrvCertNone, false, 4, 3, finished, callbacks, false)
+	accepted := zzSrvRun(sc)
+	zzSrvCheckInit(sc)
+	if accepted {
+		zzSrvCheckAccepted(sc)
+		zzsymCover("accepted")
+		if sc.clientAuth == int(dtlsconfig.RequireAndVerifyClientCert) {
+			zzsymCover("anon_accepts_despite_require_policy")
+		}
+
+		return
+	}
+	if zzSrv.vconnCalls > 0 && !zzSrv.vconnOK {
+		zzsymCover("rejected_callback")
+	}
+	if finished == zzSrvFinEpoch0 {
+		zzsymCover("cleartext_finished_ignored")
+	}
+}
